@@ -1,10 +1,11 @@
+import numpy as np
 import torch
 from torch.nn.functional import one_hot
 
 
 def to_one_hot_vector(y, n_classes):
-    if isinstance(y, int):
-        y = torch.tensor(y)
+    if isinstance(y, (int, np.integer)):
+        y = torch.tensor(int(y))
     if y.ndim == 0:
         y = one_hot(y, num_classes=n_classes)
     assert y.ndim == 1
